@@ -2,7 +2,7 @@
 
 (R) correspondence of Model.Ogg / Model.Crc (extracted) with mutagen.ogg.OggPage: from_packets (page list field by
     field, rendered bytes, size, to_packets), write/parse on random and malformed pages, to_packets strict/lax,
-    _from_packets_try_preserve, renumber / replace / find_last on synthesised multiplexed files; replace additionally over the
+    _from_packets_try_preserve (all relations of the new packet list to the old run, with the full paging oracle on the result), renumber / replace / find_last on synthesised multiplexed files; replace additionally over the
     full product (fewer, equal, more new pages) x (smaller, equal, larger rendered size) with pages of the stream after the run.
 (D) direct oracle: only the public OggPage API, judged by an independent pure-Python Ogg page reader with its own
     bit-serial CRC (never mutagen's parser).
@@ -50,7 +50,10 @@ MANIFEST = {
 RULE = ("packet lists: counts 0..300 x sizes on the lattice {0,1,254,255,256,509,510,511,k*255,4079,4080,4081,2047,2048,2049,65025,"
         "65307,65536,70000} x (default_size, wiggle_room) in {(4096,2048),(255,0),(256,1),(510,100),(1000,0),(10000,2048),(30000,5000),"
         "(65024,0),(65025,2048)}; mixes: many small then one large, runs of empty packets; pages: random fields incl. out-of-range and "
-        "incomplete/continued combinations, malformed byte streams (truncation, bad magic/version, random lacing); files: 2-3 serials "
+        "incomplete/continued combinations, malformed byte streams (truncation, bad magic/version, random lacing); "
+        "_from_packets_try_preserve: old runs = from_packets over the size lattice x page parameters x start sequence, new packet lists in "
+        "every relation to the old ones (identical lengths; same count and total, bytes redistributed by 1/2/50/254/255/256/all; same count "
+        "other total; more / fewer packets; split or merged with the same total; empty), every relation reached on every run; files: 2-3 serials "
         "interleaved, a run of one serial's pages replaced by fewer/equal/more pages; plus the full product (fewer, equal, more pages) x "
         "(smaller, EQUAL, larger rendered byte size, incl. +-1, +-255/256) on packet-aligned runs that are followed by more pages of the "
         "same serial with other serials' pages interleaved, every cell reached on every run. non-trivial = at least one page produced / "
@@ -657,39 +660,182 @@ def corr_to_packets(ctx, O, n):
             ctx.disagree("c15.to_packets", "to_packets([]) differs: %s / %s" % (mine, rm), {"runner": "c15.to_packets", "pages": []})
 
 
-def corr_try_preserve(ctx, O, n):
-    rng = ctx.rng
-    for _ in range(n):
-        sizes = [rng.choice([0, 1, 5, 255, 300, 700, 5000]) for _ in range(rng.choice([1, 2, 3, 5]))]
-        old_packets = mk_packets(rng, sizes)
-        ds, wr = rng.choice([(255, 0), (510, 100), (4096, 2048)])
-        olds = O.OggPage.from_packets(old_packets, rng.choice([0, 3]), ds, wr)
-        for i, p in enumerate(olds):
-            p.position = rng.choice([0, -1, 12345])
-        same = rng.random() < 0.6
-        new_sizes = list(sizes) if same else [rng.choice([0, 1, 5, 255, 300, 700]) for _ in range(rng.choice([1, 2, 3]))]
-        new_packets = mk_packets(rng, new_sizes)
-        sub = olds[1:] if (len(olds) > 1 and rng.random() < 0.2) else olds     # may start with a continued page (lax mode)
-        try:
-            res = O.OggPage._from_packets_try_preserve(list(new_packets), sub)
-            mine = "ok [" + ",".join(page_text(page_fields(p)) for p in res) + "]"
-        except Exception as e:
-            mine, res = "raise " + exc_name(e), None
-        rm = ctx.model.call("ogg_try_preserve", pk_list(new_packets), "[" + ",".join(page_text(page_fields(p)) for p in sub) + "]")
+PRESERVE_RELS = ("identical", "redistributed", "same-count-other-total", "more-packets", "fewer-packets", "split-merge-same-total", "empty")
+PRESERVE_PARAMS = [(4096, 2048), (4096, 2048), (255, 0), (256, 1), (510, 100), (1000, 0), (10000, 2048)]
+PRESERVE_SIZES = [0, 1, 2, 100, 150, 200, 254, 255, 256, 300, 509, 510, 511, 700, 765, 1020, 2047, 2048, 2049, 4079, 4080, 4081, 5000, 6128, 8160]
+
+
+def preserve_new_sizes(rng, sizes, rel):
+    """packet lengths of the new list in relation `rel` to the old lengths; None when the relation does not exist for `sizes`"""
+    n = len(sizes)
+    if rel == "identical":
+        return list(sizes)
+    if rel == "empty":
+        return []
+    if rel == "redistributed":
+        # same count, same total, different distribution: d bytes move from packet i to packet j
+        src = [i for i in range(n) if sizes[i] > 0]
+        if n < 2 or not src:
+            return None
+        out = list(sizes)
+        for _ in range(rng.choice([1, 1, 2])):
+            src = [i for i in range(n) if out[i] > 0]
+            i = rng.choice(src)
+            j = rng.choice([k for k in range(n) if k != i])
+            d = min(out[i], rng.choice([1, 1, 2, 50, 254, 255, 256, out[i], max(1, out[i] // 2)]))
+            out[i] -= d; out[j] += d
+        if out == list(sizes):
+            i = src[0]; j = (i + 1) % n
+            out[i] -= 1; out[j] += 1
+        return out
+    if rel == "same-count-other-total":
+        out = list(sizes)
+        i = rng.randrange(n)
+        out[i] = max(0, out[i] + rng.choice([1, -1, 2, 255, -255, 256, 1000, -out[i]]))
+        if out == list(sizes):
+            out[i] += 1
+        return out
+    if rel == "more-packets":
+        out = list(sizes)
+        for _ in range(rng.choice([1, 1, 2, 4])):
+            out.insert(rng.randrange(len(out) + 1), rng.choice([0, 0, 1, 255, 300]))
+        return out
+    if rel == "fewer-packets":
+        if n < 2:
+            return None
+        out = list(sizes)
+        for _ in range(rng.randrange(1, n)):
+            del out[rng.randrange(len(out))]
+        return out
+    if rel == "split-merge-same-total":
+        # the total is kept, the count is not: one packet cut in two, or two neighbours joined
+        out = list(sizes)
+        if n >= 2 and rng.random() < 0.5:
+            i = rng.randrange(n - 1)
+            out[i:i + 2] = [out[i] + out[i + 1]]
+        else:
+            i = rng.randrange(n)
+            c = rng.choice([0, 1, out[i] // 2, min(out[i], 255), out[i]])
+            out[i:i + 1] = [c, out[i] - c]
+        return out
+    raise ValueError(rel)
+
+
+def try_preserve_case(ctx, O, case, corr=True):
+    """one _from_packets_try_preserve input: old pages = from_packets(old packets of case['sizes'], seq, ds, wr) (positions scrambled),
+    new packets of case['new_sizes'].  Correspondence with Model.Ogg.from_packets_try_preserve and the paging oracle on the result."""
+    import random
+    sizes, new_sizes, ds, wr, seq = case["sizes"], case["new_sizes"], case["ds"], case["wr"], case["seq"]
+    prng = random.Random(case["pseed"])
+    old_packets = mk_packets(prng, sizes)
+    olds = O.OggPage.from_packets(list(old_packets), seq, ds, wr)
+    if any(lacing_values(p) > 255 for p in olds):
+        ctx.count("try_preserve:old-run-unrenderable-skipped")
+        return True
+    for p in olds:
+        if p.position != -1 or prng.random() < 0.3:
+            p.position = prng.choice([0, -1, 12345, 2 ** 40])
+    new_packets = [bytes([0xE0 | (i & 15)]) + d[1:] if d else d for i, d in enumerate(mk_packets(prng, new_sizes))]
+    sub = olds[1:] if (case.get("tail") and len(olds) > 1) else olds     # may start with a continued page (lax mode)
+    old_fields = [page_fields(p) for p in sub]
+    try:
+        res = O.OggPage._from_packets_try_preserve(list(new_packets), sub)
+        mine = "ok [" + ",".join(page_text(page_fields(p)) for p in res) + "]"
+    except Exception as e:
+        mine, res = "raise " + exc_name(e), None
+    rel = case.get("rel", "?")
+    ctx.count("try_preserve:" + rel + ("-tail" if sub is not olds else ""))
+    ctx.case(("tpv", tuple(sizes), tuple(new_sizes), ds, wr, seq, len(sub)))
+    d = dict(case); d["runner"] = "c15.try_preserve"
+    if corr:
+        rm = ctx.model.call("ogg_try_preserve", pk_list(new_packets), "[" + ",".join(page_text(f) for f in old_fields) + "]")
         ctx.corr_cases += 1
-        ctx.count("try_preserve:" + ("same-layout" if new_sizes == sizes and sub is olds else "fallback-or-partial"))
-        ctx.case(("tpv", tuple(sizes), tuple(new_sizes), ds, len(sub)))
         if mine != rm and len(ctx.disagreements) < 6:
-            ctx.disagree("c15.try_preserve", "differs: implementation %s model %s" % (mine[:80], rm[:80]),
-                         {"runner": "c15.try_preserve", "sizes": sizes, "new_sizes": new_sizes, "ds": ds, "wr": wr})
-        # direct oracle: same packet lengths -> same page count and per-page sizes, and the new packets come back
-        if res is not None and sub is olds and new_sizes == sizes:
-            ctx.oracle_cases += 1
-            d = {"runner": "c15.try_preserve", "sizes": sizes, "ds": ds, "wr": wr}
-            if len(res) != len(olds) or [p.size for p in res] != [p.size for p in olds]:
-                ctx.violation("oracle", "try_preserve: page layout not preserved for equal packet lengths", d)
-            elif O.OggPage.to_packets(res) != new_packets:
-                ctx.violation("oracle", "try_preserve: new packets not recovered", d)
+            ctx.disagree("c15.try_preserve", "differs (%s): implementation %s model %s" % (rel, mine[:80], rm[:80]), d)
+    if sub is not olds:
+        return True            # a run that starts inside a packet: outside the statement, correspondence only
+    # ---- direct oracle: the paging statement for the preserving entry point
+    ctx.oracle_cases += 1
+    ok = True
+
+    def bad(what, **extra):
+        nonlocal ok
+        if ok:
+            dd = dict(d); dd.update(extra)
+            ctx.violation("oracle", "try_preserve: " + what, dd)
+        ok = False
+
+    if res is None:
+        bad("failed on a valid packet list / page run (%s)" % mine)
+        return False
+    if not new_packets:
+        if res != []:
+            bad("pages produced for an empty packet list")
+        return ok
+    try:
+        back = O.OggPage.to_packets(res, strict=True)
+        if back != new_packets:
+            i = next((i for i, (a, b) in enumerate(zip(back, new_packets)) if a != b), min(len(back), len(new_packets)))
+            bad("to_packets(result) differs from the packets given", packet=i, got_lengths=[len(x) for x in back][:20])
+    except Exception as e:
+        bad("to_packets(result) raised %s" % exc_name(e))
+    refs = []
+    for i, p in enumerate(res):
+        try:
+            data = p.write()
+        except Exception as e:
+            bad("page %d of the result cannot be rendered (%s)" % (i, exc_name(e))); break
+        if len(data) != p.size:
+            bad("size: len(write()) != size", page=i); break
+        try:
+            r = ref_read_page(data)
+        except RefError as e:
+            bad("reference reader rejects a rendered page (%s)" % e, page=i); break
+        if r["total"] != len(data) or not r["crc_ok"] or r["nseg"] > 255 or r["nseg"] != lacing_values(p):
+            bad("rendered page invalid (length / CRC / lacing values)", page=i); break
+        if (r["packets"], r["complete"], r["continued"], r["sequence"], r["position"]) != \
+                ([bytes(x) for x in p.packets], bool(p.complete), bool(p.continued), p.sequence, p.position):
+            bad("rendered page reads back differently (reference reader)", page=i); break
+        refs.append(r)
+    if len(refs) == len(res):
+        if ref_packets(refs) != new_packets:
+            bad("rendered pages do not reassemble to the packets given (reference reader)")
+        if [r["sequence"] for r in refs] != list(range(seq, seq + len(refs))):
+            bad("sequence numbers not gapless from the first old page's number")
+        if refs[0]["continued"] or not refs[-1]["complete"] or \
+                any(refs[i]["continued"] != (not refs[i - 1]["complete"]) for i in range(1, len(refs))):
+            bad("continued / complete flags incoherent")
+        if any(not r["packets"] for r in refs):
+            bad("page without packets")
+    if list(new_sizes) == list(sizes):
+        # the "preserve" promise: same page count, sizes, per-page packet lengths, flags and positions as the old run
+        lay = lambda f: (f[1] & 1, f[2], f[4], f[5], [len(x) for x in f[6]])
+        if len(res) != len(olds) or [p.size for p in res] != [p.size for p in olds] or \
+                [lay(page_fields(p)) for p in res] != [lay(f) for f in old_fields]:
+            bad("page layout not preserved for equal packet lengths")
+    return ok
+
+
+def corr_try_preserve(ctx, O, n):
+    """n old runs over the size lattice, each against one new list per relation of PRESERVE_RELS"""
+    rng = ctx.rng
+    for it in range(n):
+        kind = rng.randrange(5)
+        if kind == 0:
+            sizes = [rng.choice([100, 200, 150, 300])  for _ in range(rng.choice([2, 3]))]
+        elif kind == 1:
+            sizes = [rng.choice(SMALL) for _ in range(rng.choice([1, 2, 5, 12]))]
+        else:
+            sizes = [rng.choice(PRESERVE_SIZES) for _ in range(rng.choice([1, 2, 2, 3, 5]))]
+        ds, wr = rng.choice(PRESERVE_PARAMS)
+        seq = rng.choice([0, 0, 3, 2 ** 32 - 400])
+        for rel in PRESERVE_RELS:
+            new_sizes = preserve_new_sizes(rng, sizes, rel)
+            if new_sizes is None:
+                continue
+            case = {"sizes": sizes, "new_sizes": new_sizes, "ds": ds, "wr": wr, "seq": seq, "rel": rel,
+                    "pseed": rng.randrange(1 << 30), "tail": rel in ("identical", "redistributed") and rng.random() < 0.15}
+            try_preserve_case(ctx, O, case)
 
 
 # ---------------------------------------------------------------------------------------------------------
@@ -1174,10 +1320,10 @@ def run(ctx):
     crc_against_libogg(ctx)
     if ctx.thorough:
         cases = paging_cases(ctx, 500, 700, 30, [65025, 65307, 65536, 70000])
-        npages, ntp, npres, nfiles, nprod = 1500, 2000, 600, 220, 40
+        npages, ntp, npres, nfiles, nprod = 1500, 2000, 700, 220, 40
     else:
         cases = paging_cases(ctx, 60, 60, 4, [65307, 70000])
-        npages, ntp, npres, nfiles, nprod = 90, 150, 50, 14, 3
+        npages, ntp, npres, nfiles, nprod = 90, 150, 60, 14, 3
     big_budget = 8 if ctx.thorough else 3
     for sizes, ds, wr, tag in cases:
         total = sum(sizes)
@@ -1191,6 +1337,9 @@ def run(ctx):
     corr_pages(ctx, O, npages)
     corr_to_packets(ctx, O, ntp)
     corr_try_preserve(ctx, O, npres)
+    ctx.notes["try_preserve_relations"] = {r: ctx.hist.get("try_preserve:" + r, 0) for r in PRESERVE_RELS}
+    if not all(ctx.notes["try_preserve_relations"].values()):
+        ctx.disagree("c15.try_preserve", "exploration did not reach every old/new packet-list relation: %r" % (ctx.notes["try_preserve_relations"],), {})
     corr_files(ctx, O, nfiles)
     corr_replace_product(ctx, O, nprod)
     missing = [c + "/" + b for c in COUNT_RELS for b in BYTE_RELS
@@ -1229,6 +1378,7 @@ def search(ctx, broken):
     try:
         ctx.model.call = lambda *a: ""      # oracle only
         nd = len(ctx.disagreements)
+        corr_try_preserve(ctx, O, 400)
         corr_replace_product(ctx, O, 25)
         del ctx.disagreements[nd:]
     finally:
@@ -1271,7 +1421,7 @@ def replay(ctx, payload):
         elif d["runner"] == "c15.parse":
             corr_parse(ctx, O, bytes.fromhex(d["data"]))
         elif d["runner"] == "c15.try_preserve":
-            corr_try_preserve(ctx, O, 300)
+            try_preserve_case(ctx, O, d, corr=False)
         else:
             ctx.model.call = saved
             run(ctx)
